@@ -53,7 +53,7 @@ func runC03(c *an.Ctx) {
 
 	// ---------------------------------------------------------------- C03.coupled
 	nStores := 0
-	for _, f := range p.Fns {
+	for _, f := range p.Units() {
 		if f.Pkg != p.Jet || f.Body == nil {
 			continue
 		}
@@ -125,7 +125,7 @@ func runC03(c *an.Ctx) {
 
 	// ---------------------------------------------------------------- C03.identity
 	nText := 0
-	for _, f := range p.Fns {
+	for _, f := range p.Units() {
 		if f.Pkg != p.Jet || f.Body == nil {
 			continue
 		}
@@ -353,7 +353,7 @@ func runC03(c *an.Ctx) {
 	// ---------------------------------------------------------------- C03.delims
 	defaults := map[string]bool{"defaultLeftDelim": true, "defaultRightDelim": true, "defaultLeftComment": true, "defaultRightComment": true}
 	nRef := 0
-	for _, f := range p.Fns {
+	for _, f := range p.Units() {
 		if f.Pkg != p.Jet || f.Body == nil {
 			continue
 		}
